@@ -67,9 +67,10 @@ Verdict(e) ==
      \cup {<<"InsideDocument", "svc", k>> : k \in homeless}
      \cup {<<"StartLeEnd", "svc", k>> : k \in {k \in 1..Len(e.svc) : ~StartLeEnd(SvcLoc(e.svc[k]))}}
      \* every reference to a name is a range that spells that name (`this` is a keyword, not a name:
-     \* the services report the enclosing class as its definition)
+     \* the services report the enclosing class as its definition); so is the range hovered by a query
+     \* placed on a name
      \cup {<<"NameSpellsItself", "svc", k>> :
-             k \in {k \in known : /\ SvcKind(e.svc[k]) = "ref" /\ SvcMod(e.svc[k]) = e.m
+             k \in {k \in known : /\ SvcKind(e.svc[k]) \in {"ref", "hover"} /\ SvcMod(e.svc[k]) = e.m
                                   /\ SvcName(e.svc[k]) \notin {"", "this"}
                                   /\ ~Spells(e.lines, SvcLoc(e.svc[k]), SvcName(e.svc[k]))}}
 
